@@ -17,6 +17,7 @@ import Jsonapi.Driver.Request
 import Jsonapi.Driver.JsonText
 import Jsonapi.Driver.Misc
 import Jsonapi.Driver.FilterJson
+import Jsonapi.Driver.Decode
 open Jsonapi Jsonapi.Driver
 
 structure DState where
@@ -69,6 +70,9 @@ def stepLine (st : DState) (line : String) : DState × String :=
     (st, m ++ "\t" ++ sp ++ "\t" ++ (if dom then "1" else "0"))
   | [.list (.atom "codec" :: args)] =>
     let (m, sp, dom) := stepCodec args
+    (st, m ++ "\t" ++ sp ++ "\t" ++ (if dom then "1" else "0"))
+  | [.list (.atom "bytes2" :: args)] =>
+    let (m, sp, dom) := stepBytes2 args
     (st, m ++ "\t" ++ sp ++ "\t" ++ (if dom then "1" else "0"))
   | [.list (.atom "filterjson" :: args)] =>
     let (m, sp, dom) := stepFilterJson args
